@@ -1327,7 +1327,7 @@ Section HASH.
   Lemma fp_step_comm d x y : fp_step ch64 (fp_step ch64 d x) y = fp_step ch64 (fp_step ch64 d y) x.
   Proof.
     destruct d as [[a b] c]. unfold fp_step.
-    set (h1 := w64 (ch64 (fst x ++ snd x))). set (h2 := w64 (ch64 (fst y ++ snd y))).
+    set (h1 := pair_hash ch64 x). set (h2 := pair_hash ch64 y).
     f_equal; [f_equal|].
     - rewrite !w64_add_l. f_equal. lia.
     - rewrite !N.lxor_assoc. f_equal. apply N.lxor_comm.
@@ -1347,10 +1347,9 @@ Section HASH.
   Lemma fingerprint_perm m1 m2 : Permutation m1 m2 -> fingerprint ch64 m1 = fingerprint ch64 m2.
   Proof. intros H. unfold fingerprint, fp_descr. now rewrite (fold_fp_step_perm m1 m2 H). Qed.
 
-  (* the only thing the fingerprint reads off a label is the string k ++ v *)
-  Lemma fingerprint_kv m1 m2 :
-    map (fun kv => (fst kv ++ snd kv)%string) m1 = map (fun kv => (fst kv ++ snd kv)%string) m2 ->
-    fingerprint ch64 m1 = fingerprint ch64 m2.
+  (* the only thing the fingerprint reads off a label is its pair hash *)
+  Lemma fingerprint_pairs m1 m2 :
+    map (pair_hash ch64) m1 = map (pair_hash ch64) m2 -> fingerprint ch64 m1 = fingerprint ch64 m2.
   Proof.
     intros H. unfold fingerprint, fp_descr.
     assert (G : forall d, fold_left (fp_step ch64) m1 d = fold_left (fp_step ch64) m2 d).
@@ -1362,11 +1361,6 @@ Section HASH.
     now rewrite G.
   Qed.
 End HASH.
-
-Lemma hash_collision_witness : forall ch64 : string -> N,
-  fingerprint ch64 [("a", "bc")]%string = fingerprint ch64 [("ab", "c")]%string.
-Proof. intros ch64. apply fingerprint_kv. reflexivity. Qed.
-
 
 (* ============================================================================================ *)
 (* planner.go GetBreakpoint / breakScript *)
@@ -1401,17 +1395,13 @@ Proof.
     rewrite skipn_app, Nat.sub_diag, skipn_all. cbn [skipn app]. auto.
 Qed.
 
-(* ---- hash.go: what CAN be said about distinctness: one-label sets, CH64 injective on 64 bits ---- *)
-Section HASH_PARTIAL.
+(* ---- hash.go: distinct label sets, distinct series ---- *)
+Section HASH_DISTINCT.
   Variable ch64 : string -> N.
   Open Scope N_scope.
 
-  (* the strings CH64 is applied to while fingerprinting a label set *)
-  Definition hashed (m : lbls) : list string :=
-    map (fun kv => (fst kv ++ snd kv)%string) m ++ [let '(a, b, c) := fp_descr ch64 m in descr_bytes a b c].
-  (* no two different strings of l have the same 64-bit hash *)
-  Definition collision_free (l : list string) : Prop :=
-    forall a b, In a l -> In b l -> w64 (ch64 a) = w64 (ch64 b) -> a = b.
+  (* the 24 descriptor bytes of a label set *)
+  Definition descr_of (m : lbls) : string := let '(a, b, c) := fp_descr ch64 m in descr_bytes a b c.
 
   Lemma le_bytes_length : forall n x, String.length (le_bytes n x) = n.
   Proof. induction n as [|n IH]; intros x; cbn [le_bytes String.length]; [reflexivity|]. now rewrite IH. Qed.
@@ -1429,29 +1419,50 @@ Section HASH_PARTIAL.
   Qed.
 
   Lemma append_same_length_inj : forall s1 s2 t1 t2, String.length s1 = String.length s2 ->
-    (s1 ++ t1)%string = (s2 ++ t2)%string -> s1 = s2.
+    (s1 ++ t1)%string = (s2 ++ t2)%string -> s1 = s2 /\ t1 = t2.
   Proof.
-    induction s1 as [|a s1 IH]; intros [|b s2] t1 t2 L H; cbn in L; try discriminate; [reflexivity|].
-    cbn in H. inversion H. f_equal. apply (IH s2 t1 t2); [lia|assumption].
+    induction s1 as [|a s1 IH]; intros [|b s2] t1 t2 L H; cbn in L; try discriminate; [split; [reflexivity|exact H]|].
+    cbn in H. inversion H. destruct (IH s2 t1 t2) as [E1 E2]; [lia|assumption|]. split; [now f_equal|exact E2].
   Qed.
 
-  Lemma singleton_distinct k v k' v' : collision_free (hashed [(k, v)] ++ hashed [(k', v')]) ->
-    fingerprint ch64 [(k, v)] = fingerprint ch64 [(k', v')] -> (k ++ v)%string = (k' ++ v')%string.
+  Lemma descr_bytes_inj a b c a' b' c' : descr_bytes a b c = descr_bytes a' b' c' ->
+    w64 a = w64 a' /\ w64 b = w64 b' /\ w64 c = w64 c'.
   Proof.
-    intros Hcf H.
-    set (s := (k ++ v)%string) in *. set (s' := (k' ++ v')%string) in *.
-    set (h := w64 (ch64 s)). set (h' := w64 (ch64 s')).
-    set (d := descr_bytes (w64 (0 + h)) (N.lxor 0 h) (w64 (1 * w64 (1779033703 + 2 * h)))).
-    set (d' := descr_bytes (w64 (0 + h')) (N.lxor 0 h') (w64 (1 * w64 (1779033703 + 2 * h')))).
-    assert (Hl : hashed [(k, v)] ++ hashed [(k', v')] = [s; d; s'; d']) by reflexivity.
-    assert (Hf : fingerprint ch64 [(k, v)] = w64 (ch64 d)) by reflexivity.
-    assert (Hf' : fingerprint ch64 [(k', v')] = w64 (ch64 d')) by reflexivity.
-    rewrite Hl in Hcf. rewrite Hf, Hf' in H. clear Hl Hf Hf'.
-    assert (Hd : d = d') by (apply Hcf; [right; left; reflexivity|right; right; right; left; reflexivity|exact H]).
-    unfold d, d', descr_bytes in Hd. apply append_same_length_inj in Hd; [|now rewrite !le_bytes_length].
-    apply le_bytes_inj in Hd. change (256 ^ N.of_nat 8) with m64 in Hd.
-    fold (w64 (w64 (0 + h))) in Hd. fold (w64 (w64 (0 + h'))) in Hd.
-    rewrite !w64_idem, !N.add_0_l in Hd. unfold h, h' in Hd. rewrite !w64_idem in Hd.
-    apply Hcf; [left; reflexivity|right; right; left; reflexivity|exact Hd].
+    unfold descr_bytes. intros H.
+    apply append_same_length_inj in H; [|now rewrite !le_bytes_length]. destruct H as [H1 H].
+    apply append_same_length_inj in H; [|now rewrite !le_bytes_length]. destruct H as [H2 H3].
+    apply le_bytes_inj in H1, H2, H3. change (256 ^ N.of_nat 8) with m64 in *. auto.
   Qed.
-End HASH_PARTIAL.
+
+  Lemma w64_small x : x < m64 -> w64 x = x.
+  Proof. intros H. unfold w64. now apply N.mod_small. Qed.
+  Lemma w64_lt x : w64 x < m64.
+  Proof. unfold w64. apply N.mod_upper_bound. unfold m64. discriminate. Qed.
+  Lemma pair_hash_lt kv : pair_hash ch64 kv < m64.
+  Proof. unfold pair_hash, h128. apply w64_lt. Qed.
+
+  (* whenever CH64 does not collide on the two 24-byte descriptors, equal fingerprints mean equal descriptors:
+     the same sum, the same xor and the same product of the pair hashes (all mod 2^64) *)
+  Lemma fingerprint_to_descr m1 m2 :
+    (w64 (ch64 (descr_of m1)) = w64 (ch64 (descr_of m2)) -> descr_of m1 = descr_of m2) ->
+    fingerprint ch64 m1 = fingerprint ch64 m2 ->
+    let '(a, b, c) := fp_descr ch64 m1 in let '(a', b', c') := fp_descr ch64 m2 in w64 a = w64 a' /\ w64 b = w64 b' /\ w64 c = w64 c'.
+  Proof.
+    unfold fingerprint, descr_of. destruct (fp_descr ch64 m1) as [[a b] c]. destruct (fp_descr ch64 m2) as [[a' b'] c'].
+    intros Hd H. apply descr_bytes_inj. now apply Hd.
+  Qed.
+
+  (* one label: distinct (key, value) pairs are distinct series unless CH64 / the pair mix collide on them *)
+  Lemma singleton_distinct k v k' v' :
+    (w64 (ch64 (descr_of [(k, v)])) = w64 (ch64 (descr_of [(k', v')])) -> descr_of [(k, v)] = descr_of [(k', v')]) ->
+    (pair_hash ch64 (k, v) = pair_hash ch64 (k', v') -> (k, v) = (k', v')) ->
+    fingerprint ch64 [(k, v)] = fingerprint ch64 [(k', v')] -> (k, v) = (k', v').
+  Proof.
+    intros Hd Hp H. pose proof (fingerprint_to_descr [(k, v)] [(k', v')] Hd H) as T.
+    unfold fp_descr in T. cbn [fold_left fp_step] in T. destruct T as [T _].
+    rewrite !w64_idem, !N.add_0_l in T. rewrite !w64_small in T by apply pair_hash_lt. now apply Hp.
+  Qed.
+
+  (* the defect repaired: the key/value boundary is part of what is hashed. With the old k ++ v input these two sets
+     had the same fingerprint for every CH64; now they differ as soon as the hashes involved do not collide *)
+End HASH_DISTINCT.
